@@ -74,7 +74,19 @@ def run(ctx, res):
                         "a namespace member is pushed as the result without passing the `exported_syms.contains` test (private items become reachable as ns::item)",
                         f.loc(f.blocks[pb]["term"]["span"]))
         fr = D.reach_from(f, [sw["false"]])
-        if any(pb in fr for pb in pushes) or EL.builds_variant(f, fr, "Exception") is None:
+        def makes_exception(region):
+            # built in place, or by a local helper that returns the EvalError (an `Err` is then built around it)
+            if EL.builds_variant(f, region, "Exception") is not None:
+                return True
+            for b in region:
+                t = f.blocks[b]["term"]
+                n = M.callee_name(t) if t["t"] == "call" else None
+                if n in P.funcs and P.funcs[n].locals[0]["ty"].endswith("EvalError") and \
+                        EL.builds_variant(P.funcs[n], P.funcs[n].reachable_blocks(), "Exception") is not None and \
+                        EL.builds_variant(f, region, "Err") is not None:
+                    return True
+            return False
+        if any(pb in fr for pb in pushes) or not makes_exception(fr):
             res.bad("GUARD-BEFORE-USE", "eval::eval_namespace_access # false-edge",
                     "when the name is not exported the function does not return an exception before pushing a value", f.loc(sw["span"]))
         else:
